@@ -434,3 +434,133 @@ func execC10(t *testing.T, c C10Case) (v Verdict) {
 }
 
 func TestC10(t *testing.T) { checkProp(t, "C10", "main", genC10, execC10) }
+
+// ---- C10 unread: the connection ends while the read loop is parked on a stream whose handler is not receiving ----
+
+// C10Unread: 1..2 streaming handlers that wait on their context without receiving; their caller (scripted) sends the
+// open, Bodies messages and possibly its half-close, so that the connection's read loop is parked handing an envelope to
+// a stream that is not listening (head-of-line blocking by design - which is why a read failure is not among the
+// endings here: a parked read loop does not call Read). Then the server is stopped, or a response write fails. Serve
+// must return, the handlers' contexts must be cancelled, the handlers finished, and nothing may remain.
+type C10Unread struct {
+	Streams   int    `json:"streams"`
+	Bodies    int    `json:"bodies"` // messages sent to the first stream (0..3); the others get none
+	HalfClose bool   `json:"half_close"`
+	Unary     int    `json:"unary"`  // unary handlers waiting on their context (0..2), started before the stream traffic
+	Ending    string `json:"ending"` // stop | writefail
+	ErrKind   string `json:"err_kind"`
+	Ser       bool   `json:"ser"`
+	Stats     bool   `json:"stats,omitempty"`
+}
+
+func genC10Unread(t *rapid.T) C10Unread {
+	return C10Unread{Streams: rapid.IntRange(1, 2).Draw(t, "streams"), Bodies: rapid.IntRange(0, 3).Draw(t, "bodies"), HalfClose: rapid.Bool().Draw(t, "half_close"), Unary: rapid.IntRange(0, 2).Draw(t, "unary"),
+		Ending: rapid.SampledFrom([]string{"stop", "stop", "writefail"}).Draw(t, "ending"), ErrKind: rapid.SampledFrom(kit.FaultErrKinds).Draw(t, "err_kind"), Ser: rapid.Bool().Draw(t, "ser"), Stats: rapid.IntRange(0, 3).Draw(t, "stats") == 0}
+}
+
+func execC10Unread(t *testing.T, c C10Unread) (v Verdict) {
+	defer kit.UseFaultKind(c.ErrKind)()
+	var mu sync.Mutex
+	started, exited, cancelledAtReturn := 0, 0, 0
+	var ctxs []context.Context
+	serveReturned := false
+	var remaining []string
+	res := kit.Bubble(t, func() {
+		svc := kit.NewSvc()
+		wait := func(ctx context.Context) {
+			mu.Lock()
+			started++
+			ctxs = append(ctxs, ctx)
+			mu.Unlock()
+			<-ctx.Done()
+			mu.Lock()
+			exited++
+			mu.Unlock()
+		}
+		svc.Stream("w", true, true, func(s grpcServerStream) error { wait(s.Context()); return s.Context().Err() })
+		svc.Unary("uw", func(ctx context.Context, req []byte) ([]byte, error) { wait(ctx); return nil, ctx.Err() })
+		svc.Unary("q", func(ctx context.Context, req []byte) ([]byte, error) { return req, nil })
+		w := kit.NewWorld(kit.Topo{Kind: "direct", Serialize: c.Ser, Clients: 1, Raw: true, Stats: c.Stats}, svc, nil, nil)
+		l := w.Links[0]
+		bg := context.Background()
+		body := kit.Payload{Class: "lit", Lit: []byte("rq")}
+		for i := 0; i < c.Unary; i++ {
+			e := kit.EnvSpec{Body: &body, Wrap: true}
+			_ = l.A.Write(bg, e.Build(uint64(100+i), kit.FullMethod("uw"), "c0", kit.ServerName))
+		}
+		for i := 0; i < c.Streams; i++ {
+			open := kit.EnvSpec{}
+			_ = l.A.Write(bg, open.Build(uint64(1+i), kit.FullMethod("w"), "c0", kit.ServerName))
+		}
+		kit.Settle()
+		if c.Ending == "writefail" {
+			// the reply of a quick unary call is the write that fails; it is requested before the read loop gets stuck
+			l.B.FailWriteIf(func(r *kit.Rpc) bool { return r.GetId() == 500 })
+		}
+		for i := 0; i < c.Bodies; i++ {
+			e := kit.EnvSpec{Body: &body, Wrap: true}
+			_ = l.A.Write(bg, e.Build(1, kit.FullMethod("w"), "c0", kit.ServerName))
+		}
+		if c.HalfClose {
+			e := kit.EnvSpec{Status: &kit.StatusSpec{Code: 0, Msg: "OK"}, Trailer: true}
+			_ = l.A.Write(bg, e.Build(1, kit.FullMethod("w"), "c0", kit.ServerName))
+		}
+		kit.Settle() // from the second envelope on the read loop is parked on stream 1's one-slot queue
+		switch c.Ending {
+		case "stop":
+			w.Server.Stop()
+		case "writefail":
+			// behind the parked envelopes this request would never be read; so it is only sent when the read loop is free
+			if c.Bodies+b2i(c.HalfClose) >= 2 {
+				w.Server.Stop()
+			} else {
+				q := kit.EnvSpec{Body: &body, Wrap: true}
+				_ = l.A.Write(bg, q.Build(500, kit.FullMethod("q"), "c0", kit.ServerName))
+			}
+		}
+		kit.Settle()
+		serveReturned, _ = w.ServeResult("c0")
+		mu.Lock()
+		for _, ctx := range ctxs {
+			if ctx.Err() != nil {
+				cancelledAtReturn++
+			}
+		}
+		mu.Unlock()
+		if serveReturned {
+			for _, g := range kit.LiveInBubble() {
+				if strings.Contains(g, "github.com/avos-io/goat") {
+					remaining = append(remaining, g)
+				}
+			}
+		}
+		w.Shutdown()
+		kit.Settle()
+	})
+	if res.Panic != nil {
+		v.failf("panic: %v\n%s", res.Panic, res.Stack)
+	}
+	parked := c.Bodies+b2i(c.HalfClose) >= 2
+	if !serveReturned {
+		v.failf("Serve did not return after %s (read loop parked on an unread stream: %v; %d messages and half-close=%v sent to a handler that is not receiving)", c.Ending, parked, c.Bodies, c.HalfClose)
+	}
+	if started != c.Streams+c.Unary {
+		v.failf("harness: %d of %d handlers started", started, c.Streams+c.Unary)
+	}
+	if serveReturned && cancelledAtReturn != started {
+		v.failf("Serve has returned but the contexts of %d of %d in-flight handlers are still live", started-cancelledAtReturn, started)
+	}
+	if serveReturned && exited != started {
+		v.failf("Serve has returned but %d of %d handlers have not finished", started-exited, started)
+	}
+	if len(remaining) > 0 && v.Fail == "" {
+		v.failf("Serve has returned and all handlers have finished, but goroutines of the connection remain: %s", strings.Join(kit.StackSites(remaining), " ;; "))
+	}
+	if len(res.Leaked) > 0 && v.Fail == "" {
+		v.failf("goroutines left at the end of the case: %s", strings.Join(kit.StackSites(res.Leaked), " ;; "))
+	}
+	v.Info = kit.CaseInfo{Labels: []string{"unread", "unread.ending=" + c.Ending, fmt.Sprintf("unread.read_loop_parked=%v", parked), fmt.Sprintf("unread.half_close=%v", c.HalfClose)}, NonTrivial: parked, Key: fmt.Sprintf("%+v", c), Sample: c}
+	return
+}
+
+func TestC10Unread(t *testing.T) { checkProp(t, "C10", "unread", genC10Unread, execC10Unread) }
